@@ -26,6 +26,14 @@
   (`importlib.util.resolve_name` on the file's package, longest existing prefix), so the analysed set
   is `Spec.Reach` over Python's import graph of the project; `C12_init_as_module_inside`: the
   `__init__.py` rule at every level.
+
+  Block positions (`Blocks.*`, RattrModel/ImportBlocks.lean): which import statements of a file reach the
+  root context at all — `C12_every_block_position_is_an_edge` (if / elif / else, for / while / else, with,
+  try / except / else / finally, nested to any depth: registered = written, as multisets),
+  `C12_registered_are_written`, `C12_block_order_is_source_order`, `C12_block_edges_like_python`;
+  `C12_cex_import_inside_match`: a statement class without a visitor (match, try/except*, class body) loses
+  its imports (known finding). Configuration discovery (`Cli.findPyproject`): `C12_nearest_root_wins`,
+  `C12_cwd_root_wins`, `C12_outer_roots_irrelevant`, `C12_stage_ignores_outer_roots`.
 -/
 import RattrModel.Imports
 import RattrModel.Spec.Allowed
@@ -33,6 +41,7 @@ import RattrModel.Generated.C12
 import RattrProofs.Lemmas.C12
 import RattrProofs.Lemmas.C12Config
 import RattrModel.ImportEdges
+import RattrModel.ImportBlocks
 import RattrProofs.Lemmas.C12Edges
 
 set_option linter.unusedSectionVars false
@@ -1473,5 +1482,268 @@ example : (bfs (graphOf exNp Pnp) (levelFlags 1) (fuelBound (graphOf exNp Pnp) (
     (tNp.stmts.map (impOf exNp tNp.src))).state.analysed = [S "np.q1.q2", S "np.q1.util"] := by decide
 
 end EdgeTheorems
+
+/-! ### Block positions: which import statements of a file become edges
+
+`RootContextBuilder` reaches an import statement only through its `visit_` methods
+(RattrModel/ImportBlocks.lean). Python executes an import statement wherever it stands at module level.
+The theorems say: in a file whose module-level statements are of the classes the builder descends into
+(`if` / `elif` / `else`, `for` / `while` with `else`, `with`, `try` / `except` / `else` / `finally`, nested to any
+depth), the import symbols of the root context — the queue of the BFS — are EXACTLY the import symbols
+written in the file (a permutation of them: `try` registers its handlers last); nothing is ever invented;
+and one statement of a class without a visitor (`match`, `try … except*`, a class body) loses what stands
+inside it (`C12_cex_import_inside_match`: a defect of the pinned code, listed in known_findings.json). -/
+
+section BlockTheorems
+open Rattr.Blocks
+
+variable {α : Type}
+
+/-- Tie A: the visitor table the model transcribes is the one of the source (every statement class of
+this interpreter's grammar that has nested statement lists is in it). -/
+theorem tieA_block_visitors :
+    Generated.C12.blockVisitors = Blocks.visitorTable ∧ Generated.C12.registerBodies = Blocks.registerBodies := by
+  decide
+
+theorem try_shuffle (o f h : List α) : (o ++ (f ++ h)).Perm (h ++ (o ++ f)) := by
+  rw [← List.append_assoc]; exact List.perm_append_comm
+
+mutual
+theorem reg_perm_written (b : Blk α) (h : descended b = true) : (reg b).Perm (written b) := by
+  cases b with
+  | leaf a => simp [reg, written]
+  | ifS b o =>
+    simp only [descended, Bool.and_eq_true] at h
+    simp only [reg, written]
+    exact (regL_perm_writtenL b h.1).append (regL_perm_writtenL o h.2)
+  | loopS b o =>
+    simp only [descended, Bool.and_eq_true] at h
+    simp only [reg, written]
+    exact (regL_perm_writtenL b h.1).append (regL_perm_writtenL o h.2)
+  | withS b =>
+    simp only [descended] at h
+    simp only [reg, written]
+    exact regL_perm_writtenL b h
+  | tryS b hd o f =>
+    simp only [descended, Bool.and_eq_true] at h
+    obtain ⟨⟨⟨hb, hh⟩, ho⟩, hf⟩ := h
+    simp only [reg, written]
+    exact (regL_perm_writtenL b hb).append
+      (((regL_perm_writtenL o ho).append ((regL_perm_writtenL f hf).append (regL_perm_writtenL hd hh))).trans
+        (try_shuffle _ _ _))
+  | noVisit k => simp [descended] at h
+theorem regL_perm_writtenL (l : List (Blk α)) (h : descendedL l = true) : (regL l).Perm (writtenL l) := by
+  cases l with
+  | nil => simp [regL, writtenL]
+  | cons x r =>
+    simp only [descendedL, Bool.and_eq_true] at h
+    simp only [regL, writtenL]
+    exact (reg_perm_written x h.1).append (regL_perm_writtenL r h.2)
+end
+
+mutual
+theorem reg_sub_written (b : Blk α) : ∀ a ∈ reg b, a ∈ written b := by
+  intro a ha
+  cases b with
+  | leaf x => simpa [reg, written] using ha
+  | ifS b o =>
+    simp only [reg, written, List.mem_append] at ha ⊢
+    exact ha.imp (regL_sub_writtenL b a) (regL_sub_writtenL o a)
+  | loopS b o =>
+    simp only [reg, written, List.mem_append] at ha ⊢
+    exact ha.imp (regL_sub_writtenL b a) (regL_sub_writtenL o a)
+  | withS b =>
+    simp only [reg, written] at ha ⊢
+    exact regL_sub_writtenL b a ha
+  | tryS b hd o f =>
+    simp only [reg, written, List.mem_append] at ha ⊢
+    rcases ha with h | h | h | h
+    · exact .inl (regL_sub_writtenL b a h)
+    · exact .inr (.inr (.inl (regL_sub_writtenL o a h)))
+    · exact .inr (.inr (.inr (regL_sub_writtenL f a h)))
+    · exact .inr (.inl (regL_sub_writtenL hd a h))
+  | noVisit k => simp [reg] at ha
+theorem regL_sub_writtenL (l : List (Blk α)) : ∀ a ∈ regL l, a ∈ writtenL l := by
+  intro a ha
+  cases l with
+  | nil => simp [regL] at ha
+  | cons x r =>
+    simp only [regL, writtenL, List.mem_append] at ha ⊢
+    exact ha.imp (reg_sub_written x a) (regL_sub_writtenL r a)
+end
+
+mutual
+theorem reg_eq_written (b : Blk α) (h : tryFree b = true) : reg b = written b := by
+  cases b with
+  | leaf a => simp [reg, written]
+  | ifS b o =>
+    simp only [tryFree, Bool.and_eq_true] at h
+    simp only [reg, written, regL_eq_writtenL b h.1, regL_eq_writtenL o h.2]
+  | loopS b o =>
+    simp only [tryFree, Bool.and_eq_true] at h
+    simp only [reg, written, regL_eq_writtenL b h.1, regL_eq_writtenL o h.2]
+  | withS b =>
+    simp only [tryFree] at h
+    simp only [reg, written, regL_eq_writtenL b h]
+  | tryS b hd o f => simp [tryFree] at h
+  | noVisit k => simp [tryFree] at h
+theorem regL_eq_writtenL (l : List (Blk α)) (h : tryFreeL l = true) : regL l = writtenL l := by
+  cases l with
+  | nil => simp [regL, writtenL]
+  | cons x r =>
+    simp only [tryFreeL, Bool.and_eq_true] at h
+    simp only [regL, writtenL, reg_eq_written x h.1, regL_eq_writtenL r h.2]
+end
+
+/-- **C12, every module-level block position is an edge.** In a module body made of import statements and
+of `if` / `for` / `while` / `with` / `try` statements nested to any depth, every import symbol written
+anywhere (in an `else`, an `elif`, a handler, a `finally`, …) is registered in the root context — and so put
+on the queue of the import loop — exactly as often as it is written. -/
+theorem C12_every_block_position_is_an_edge (l : List (Blk α)) (h : descendedL l = true) :
+    (regL l).Perm (writtenL l) ∧ ∀ a, a ∈ writtenL l ↔ a ∈ regL l :=
+  ⟨regL_perm_writtenL l h, fun _ => (regL_perm_writtenL l h).mem_iff.symm⟩
+
+/-- Nothing is invented: whatever the statements of a module are, a registered import symbol is a written
+one. -/
+theorem C12_registered_are_written (l : List (Blk α)) : ∀ a ∈ regL l, a ∈ writtenL l :=
+  regL_sub_writtenL l
+
+/-- Without `try` statements the order of registration (the order of the queue) is the source order. -/
+theorem C12_block_order_is_source_order (l : List (Blk α)) (h : tryFreeL l = true) : regL l = writtenL l :=
+  regL_eq_writtenL l h
+
+/-- **…as edges of the graph.** A file whose statement list is what `register_stmts` makes of its block tree
+`t` (all of it descended into): its edges in rattr's graph are, as a set, Python's edges of ALL import
+statements written in it (`C12_edge_like_python` per statement). -/
+theorem C12_block_edges_like_python {ω : Type} (ex : Locator.Dotted → Bool) (p : Edges.PFile ω) (t : List (Blk Edges.Stmt))
+    (hp : p.stmts = regL t) (hd : descendedL t = true) (hwf : ∀ s ∈ writtenL t, Edges.wf p.src s = true) :
+    ∀ i, i ∈ (Edges.toModule ex p).imports ↔ i ∈ (writtenL t).map (Edges.pyImpOf ex p.src) := by
+  intro i
+  have hperm := (regL_perm_writtenL t hd).map (Edges.impOf ex p.src)
+  have hmap : (writtenL t).map (Edges.impOf ex p.src) = (writtenL t).map (Edges.pyImpOf ex p.src) := by
+    apply List.map_congr_left
+    intro s hs
+    exact C12_edge_like_python ex p.src s (hwf s hs)
+  simp only [Edges.toModule, hp]
+  rw [← hmap]
+  exact hperm.mem_iff
+
+/-- **Counterexample (defect of the pinned code).** `match x: case 0: import a` followed by `import b`:
+`a` is written (Python may execute it) and is not registered — a module reachable only through it is never
+analysed. The same for `try … except*` and a class body (`Blk.noVisit`). -/
+theorem C12_cex_import_inside_match :
+    regL [Blk.noVisit [Blk.leaf 0], Blk.leaf 1] = [1] ∧ (0 : Nat) ∈ writtenL [Blk.noVisit [Blk.leaf 0], Blk.leaf 1] ∧
+    ¬ (∀ (l : List (Blk Nat)) a, a ∈ writtenL l → a ∈ regL l) := by
+  refine ⟨by simp [regL, reg], by simp [writtenL, written], ?_⟩
+  intro h
+  have := h [Blk.noVisit [Blk.leaf 0], Blk.leaf 1] 0 (by simp [writtenL, written])
+  simp [regL, reg] at this
+
+/-- non-vacuity: `if c: import 0 / elif d: import 1 / else: try: import 2 / except: import 3 / else: import 4 /
+finally: import 5` — all six registered, the handler's last -/
+example : descendedL [Blk.ifS [Blk.leaf 0] [Blk.ifS [Blk.leaf 1]
+      [Blk.tryS [Blk.leaf 2] [Blk.leaf 3] [Blk.leaf 4] [Blk.leaf 5]]]] = true ∧
+    regL [Blk.ifS [Blk.leaf 0] [Blk.ifS [Blk.leaf 1]
+      [Blk.tryS [Blk.leaf 2] [Blk.leaf 3] [Blk.leaf 4] [Blk.leaf 5]]]] = [0, 1, 2, 4, 5, 3] := by
+  simp [descendedL, descended, regL, reg]
+
+end BlockTheorems
+
+/-! ### Configuration discovery: WHICH pyproject.toml is the project's
+
+`find_project_root` (rattr/config/_util.py; model `Cli.findPyproject`): the working directory if it is a
+project root (has pyproject.toml / .git / .hg / .svn), else the NEAREST ancestor that is one. With nested
+roots (a repository with `.git` — or another project's pyproject.toml — above a project that has its own
+pyproject.toml) the inner project's `[tool.rattr]` table applies, wherever below the inner root rattr is
+started; nothing above the nearest root plays any role. -/
+
+section DiscoveryTheorems
+open Rattr.Cli
+
+/-- the source of the three functions, statement by statement -/
+def projectRootOps : List String :=
+  ["_is_project_root: if not path.is_dir()", "_is_project_root: return False", "_is_project_root: endif",
+   "_is_project_root: is_python_project = (path / 'pyproject.toml').is_file()",
+   "_is_project_root: is_git_repo = (path / '.git').exists()",
+   "_is_project_root: is_mercurial_repo = (path / '.hg').is_dir()",
+   "_is_project_root: is_apache_svn_repo = (path / '.svn').is_dir()",
+   "_is_project_root: return is_python_project or is_git_repo or is_mercurial_repo or is_apache_svn_repo",
+   "find_project_root: cwd = Path.cwd().resolve()", "find_project_root: if _is_project_root(cwd)",
+   "find_project_root: return cwd", "find_project_root: endif",
+   "find_project_root: for dir in (dir for dir in cwd.parents if _is_project_root(dir))",
+   "find_project_root: return dir", "find_project_root: endfor", "find_project_root: return cwd",
+   "find_pyproject_toml: pyproject_toml = find_project_root() / 'pyproject.toml'",
+   "find_pyproject_toml: if pyproject_toml.is_file()", "find_pyproject_toml: return pyproject_toml",
+   "find_pyproject_toml: endif", "find_pyproject_toml: return None"]
+
+theorem tieA_project_root : Generated.C12.projectRootOps = projectRootOps := by decide
+
+theorem find_first_root (pre post : List Dir) (d : Dir) (hpre : ∀ x ∈ pre, x.isRoot = false) (hd : d.isRoot = true) :
+    (pre ++ d :: post).find? Dir.isRoot = some d := by
+  induction pre with
+  | nil => simp [hd]
+  | cons x r ih =>
+    have hx := hpre x (List.mem_cons_self ..)
+    simp only [List.cons_append, List.find?, hx]
+    exact ih (fun y hy => hpre y (List.mem_cons_of_mem _ hy))
+
+/-- **The nearest root wins.** rattr started in a directory that is not a root; `d` the nearest ancestor that
+is one: the project's TOML is `d`'s (none if `d` has no pyproject.toml) — whatever lies above `d`. -/
+theorem C12_nearest_root_wins (w : World) (pre post : List Dir) (d : Dir) (hc : w.cwd.isRoot = false)
+    (hp : w.parents = pre ++ d :: post) (hpre : ∀ x ∈ pre, x.isRoot = false) (hd : d.isRoot = true) :
+    findPyproject w = d.pyproject := by
+  simp [findPyproject, hc, hp, find_first_root pre post d hpre hd]
+
+/-- Started in the inner root itself: its own pyproject.toml, whatever any ancestor has. -/
+theorem C12_cwd_root_wins (w : World) (h : w.cwd.isRoot = true) (ps : List Dir) :
+    findPyproject { w with parents := ps } = w.cwd.pyproject := by
+  simp [findPyproject, h]
+
+/-- Two worlds that differ only ABOVE the nearest project root (or anywhere above a working directory that is
+itself a root). -/
+def SameBelowNearestRoot (w w' : World) : Prop :=
+  w.overrideFile = w'.overrideFile ∧ w.cwd = w'.cwd ∧
+  (w.cwd.isRoot = true ∨
+    ∃ pre d post post', w.parents = pre ++ d :: post ∧ w'.parents = pre ++ d :: post' ∧
+      (∀ x ∈ pre, x.isRoot = false) ∧ d.isRoot = true)
+
+theorem findPyproject_same (w w' : World) (h : SameBelowNearestRoot w w') : findPyproject w = findPyproject w' := by
+  obtain ⟨_, hc, h⟩ := h
+  rcases h with h | ⟨pre, d, post, post', hp, hp', hpre, hd⟩
+  · have h' : w'.cwd.isRoot = true := hc ▸ h
+    simp [findPyproject, h', hc]
+  · cases hr : w.cwd.isRoot with
+    | true =>
+      have h' : w'.cwd.isRoot = true := hc ▸ hr
+      simp [findPyproject, h', hc]
+    | false =>
+      have h' : w'.cwd.isRoot = false := hc ▸ hr
+      rw [C12_nearest_root_wins w pre post d hr hp hpre hd, C12_nearest_root_wins w' pre post' d h' hp' hpre hd]
+
+/-- **Outer roots play no role**, for the whole configuration stage: same outcome of `parse_arguments` (same
+namespace, same error), hence the same level, the same patterns. -/
+theorem C12_outer_roots_irrelevant (w w' : World) (h : SameBelowNearestRoot w w') (argv : List Text) (eoe : Bool) :
+    parseArguments w none argv eoe = parseArguments w' none argv eoe ∧ selectedToml w argv = selectedToml w' argv := by
+  have hf := findPyproject_same w w' h
+  have ho : ∀ ns, getOverride w ns = getOverride w' ns := by
+    intro ns; simp only [getOverride, h.1]
+  constructor
+  · simp only [parseArguments, hf, ho]
+  · simp only [selectedToml, hf, ho]
+
+/-- **…and for the stage.** The import loop runs with the same flags on the same graph: the modules analysed
+do not depend on anything above the nearest project root. -/
+theorem C12_stage_ignores_outer_roots (w w' : World) (h : SameBelowNearestRoot w w') (argv : List Text)
+    (g : Graph ν ω) (target : List (Imp ν)) : stage w argv g target = stage w' argv g target := by
+  simp only [stage, (C12_outer_roots_irrelevant w w' h argv true).1]
+
+/-- non-vacuity (the layout of the seeded change): cwd `…/api/src` (nothing), parent `…/api` with the inner
+pyproject.toml, above it the repository (`.git`) and, further up, another project's pyproject.toml -/
+example : findPyproject (World.mk none (Dir.mk false none)
+      [Dir.mk false (some (.table [(followKey, .sc (.int 0))])), Dir.mk true none,
+       Dir.mk false (some (.table [(followKey, .sc (.int 3))]))])
+    = some (.table [(followKey, .sc (.int 0))]) := by decide
+
+end DiscoveryTheorems
 
 end Rattr.C12
